@@ -40,6 +40,7 @@ enum El {
     RawSlice { k: usize, n: usize },                        // n bits read at offset k of a computed parent that is then dropped
     Str(&'static str),                                      // `"a" >bitstr` .. `n bytes bitstr>utf8`
     Bytes(Vec<u8>),                                         // `[ 0 255 ] >bitstr` .. `n bytes`
+    Byte(u8),                                               // a bare integer 0..255 directly in the vector handed to `>bitstr` .. `1 bytes`
 }
 
 const PARENT: [u8; 3] = [0xa5, 0x3c, 0x96];
@@ -100,6 +101,7 @@ impl El {
             El::RawSlice { .. } => "raw-slice",
             El::Str(_) => "string",
             El::Bytes(_) => "byte-list",
+            El::Byte(_) => "bare-byte",
         }
     }
     fn width(&self) -> usize {
@@ -110,6 +112,7 @@ impl El {
             El::RawSlice { n, .. } => *n,
             El::Str(s) => s.len() * 8,
             El::Bytes(b) => b.len() * 8,
+            El::Byte(_) => 8,
         }
     }
     /// byte order mode of a numeric field (None for the rest)
@@ -143,6 +146,7 @@ impl El {
             El::RawSlice { k, n } => format!("[ {} ] >bitstr open-bitstr {} bits drop {} bits close-bitstr", PARENT.iter().map(|b| format!("{}", b)).collect::<Vec<_>>().join(" "), k, n),
             El::Str(s) => format!("\"{}\" >bitstr", s),
             El::Bytes(b) => format!("[ {}] >bitstr", b.iter().map(|x| format!("{} ", x)).collect::<String>()),
+            El::Byte(b) => format!("[ {} ] >bitstr", b),
         }
     }
     /// the element as a member of a vector handed to `>bitstr` (strings and byte lists stay bare)
@@ -150,6 +154,7 @@ impl El {
         match self {
             El::Str(s) => format!("\"{}\"", s),
             El::Bytes(b) => format!("[ {}]", b.iter().map(|x| format!("{} ", x)).collect::<String>()),
+            El::Byte(b) => format!("{}", b),
             other => other.pack_src(),
         }
     }
@@ -165,6 +170,7 @@ impl El {
             El::RawSlice { n, .. } => format!("{} bits", n),
             El::Str(s) => format!("{} bytes bitstr>utf8", s.len()),
             El::Bytes(b) => format!("{} bytes", b.len()),
+            El::Byte(_) => "1 bytes".into(),
         }
     }
     fn expect_val(&self) -> Option<Val> {
@@ -176,6 +182,7 @@ impl El {
             El::RawSlice { k, n } => Val::Bits(bytes_bits(&PARENT)[*k..*k + *n].to_vec()),
             El::Str(s) => Val::Str(s.to_string()),
             El::Bytes(b) => Val::Bits(bytes_bits(b)),
+            El::Byte(b) => Val::Bits(bytes_bits(&[*b])),
         })
     }
     /// bits of the field where the layout is defined without looking at the implementation
@@ -214,6 +221,7 @@ impl El {
             El::RawSlice { k, n } => Some(bytes_bits(&PARENT)[*k..*k + *n].to_vec()),
             El::Str(s) => Some(bytes_bits(s.as_bytes())),
             El::Bytes(b) => Some(bytes_bits(b)),
+            El::Byte(b) => Some(bytes_bits(&[*b])),
         }
     }
 }
@@ -301,6 +309,8 @@ fn alphabets(seed: u64) -> (Vec<El>, Vec<usize>, Vec<usize>) {
     }
     push(&mut full, El::Bytes(vec![]), true, false);
     push(&mut full, El::Bytes(vec![0, 255]), true, true);
+    push(&mut full, El::Byte(0x89), true, true);
+    push(&mut full, El::Byte(10), false, false);
     // the seed only adds members to the value alphabet (full alphabet); the product is still complete
     if seed != 0 {
         for i in 0..4u64 {
